@@ -328,9 +328,95 @@ theorem spell_core_not_ws (sp : Spelling) (z : Int) : ∀ c ∈ signStr sp z ++ 
       · simp at hc
   · exact numChar_not_ws (spellNat_numChar sp _ c hc)
 
-theorem autoIntL_spell (sp : Spelling) (hwf : sp.WF) (z : Int) : autoIntL (spell sp z) = some z := by
-  unfold autoIntL spell
-  rw [List.append_assoc sp.wsL, trim_pad sp.wsL _ sp.wsR hwf.1 hwf.2 (by simp [spellNat_ne_nil]) (spell_core_not_ws sp z)]
+theorem autoIntA_spell (sp : Spelling) (hl : ∀ c ∈ sp.wsL, isWs c = true) (hr : ∀ c ∈ sp.wsR, isWs c = true) (z : Int) :
+    autoIntA (spell sp z) = some z := by
+  unfold autoIntA spell
+  rw [List.append_assoc sp.wsL, trim_pad sp.wsL _ sp.wsR hl hr (by simp [spellNat_ne_nil]) (spell_core_not_ws sp z)]
   exact autoIntL_core sp z
+
+/-! ### the Unicode edge: `normChar` -/
+
+theorem uniSpaces_ge : ∀ n ∈ uniSpaces, 128 ≤ n := by decide
+
+theorem isUniSpace_ge {c : Char} (h : isUniSpace c = true) : 128 ≤ c.toNat := by
+  unfold isUniSpace at h
+  exact uniSpaces_ge _ (by simpa using h)
+
+theorem isWs_lt {c : Char} (h : isWs c = true) : c.toNat < 128 := by
+  have := isWs_mem h
+  simp only [List.mem_cons, List.not_mem_nil, or_false] at this
+  rcases this with rfl | rfl | rfl | rfl | rfl | rfl <;> decide
+
+theorem normChar_ascii {c : Char} (h : c.toNat < 128) : normChar c = c := by simp [normChar, h]
+
+theorem numChar_ascii {c : Char} (h : numChar c = true) : c.toNat < 128 := by
+  simp only [numChar, Char.isAlphanum, Char.isAlpha, Char.isUpper, Char.isLower, Char.isDigit, Bool.or_eq_true,
+    Bool.and_eq_true, decide_eq_true_eq, beq_iff_eq, ge_iff_le, UInt32.le_iff_toNat_le] at h
+  have e : c.toNat = c.val.toNat := rfl
+  rcases h with ((h | h) | h) | h
+  · rw [e]; have := h.2; simp at this; omega
+  · rw [e]; have := h.2; simp at this; omega
+  · rw [e]; have := h.2; simp at this; omega
+  · subst h; decide
+
+/-- a character `int()` skips is, after normalisation, one of the six ASCII ones -/
+theorem normChar_wsInt {c : Char} (h : isWsInt c = true) : isWs (normChar c) = true := by
+  simp only [isWsInt, Bool.or_eq_true] at h
+  rcases h with h | h
+  · rw [normChar_ascii (isWs_lt h)]; exact h
+  · have hge := isUniSpace_ge h
+    have : ¬ c.toNat < 128 := by omega
+    simp only [normChar, this, if_false, h, if_true]; decide
+
+theorem map_normChar_ascii (s : Str) (h : ∀ c ∈ s, c.toNat < 128) : s.map normChar = s := by
+  induction s with
+  | nil => rfl
+  | cons a t ih =>
+    simp only [List.map_cons, normChar_ascii (h a (by simp))]
+    rw [ih (fun c hc => h c (by simp [hc]))]
+
+theorem spell_core_ascii (sp : Spelling) (z : Int) : ∀ c ∈ signStr sp z ++ spellNat sp z.natAbs, c.toNat < 128 := by
+  intro c hc
+  simp only [List.mem_append] at hc
+  rcases hc with hc | hc
+  · unfold signStr at hc
+    split at hc
+    · simp at hc; subst hc; decide
+    · split at hc
+      · simp at hc; subst hc; decide
+      · simp at hc
+  · exact numChar_ascii (spellNat_numChar sp _ c hc)
+
+/-- the spelling whose surrounding white space has been normalised -/
+def Spelling.norm (sp : Spelling) : Spelling := { sp with wsL := sp.wsL.map normChar, wsR := sp.wsR.map normChar }
+
+theorem map_normChar_spell (sp : Spelling) (z : Int) : (spell sp z).map normChar = spell sp.norm z := by
+  have hcore := map_normChar_ascii _ (spell_core_ascii sp z)
+  have h1 : signStr sp.norm z = signStr sp z := rfl
+  have h2 : spellNat sp.norm z.natAbs = spellNat sp z.natAbs := rfl
+  unfold spell
+  rw [h1, h2]
+  simp only [List.map_append, List.append_assoc] at hcore ⊢
+  rw [← List.append_assoc (List.map normChar (signStr sp z)), hcore]
+  simp [Spelling.norm]
+
+/-- every spelling, with any white space `int()` skips around it (ASCII or not), is read back -/
+theorem autoIntL_spell (sp : Spelling) (hwf : sp.WF) (z : Int) : autoIntL (spell sp z) = some z := by
+  unfold autoIntL
+  rw [map_normChar_spell]
+  apply autoIntA_spell
+  · intro c hc
+    simp only [Spelling.norm, List.mem_map] at hc
+    obtain ⟨x, hx, rfl⟩ := hc
+    exact normChar_wsInt (hwf.1 x hx)
+  · intro c hc
+    simp only [Spelling.norm, List.mem_map] at hc
+    obtain ⟨x, hx, rfl⟩ := hc
+    exact normChar_wsInt (hwf.2 x hx)
+
+/-- the value of a text only depends on its normalised characters: any decimal digit may be replaced by the same digit
+    of another script, any skipped space by any other -/
+theorem autoIntL_congr (u s : Str) (h : u.map normChar = s.map normChar) : autoIntL u = autoIntL s := by
+  unfold autoIntL; rw [h]
 
 end Gallia.Parse
